@@ -652,19 +652,13 @@ Proof.
 Qed.
 
 (** one resync item *)
-Lemma resync_step1_wle X w ip (e : entry) ocl fl (mk : ipam * ares → world → world * sres) :
-  (∀ r w1, w_ipam (mk r w1).1 = w_ipam w1 ∨ w_ipam (mk r w1).1 = r.1) →
-  wle X w (if w_provider w && negb (Keys.is_empty (e_node e)) then
-             if bool_decide (f_cloud fl = Some 0%nat) then (w, SErr)
-             else mk (reserve_ip (w_ipam (cloud_unassign w ip (e_node e))) (e_key e) (e_key e) free_entry_attr ocl None)
-                     (cloud_unassign w ip (e_node e))
-           else (w, SOk)).1.
+Lemma update_attr_keys_eq s key x a fail : keys_eq s (update_attr s key x a fail).1 ∧ i_pools (update_attr s key x a fail).1 = i_pools s.
 Proof.
-  intros Hmk. destruct (_ && _)%bool; [|apply wle_refl]. destruct (bool_decide _); [apply wle_refl|].
-  unfold wle. destruct (Hmk (reserve_ip (w_ipam (cloud_unassign w ip (e_node e))) (e_key e) (e_key e) free_entry_attr ocl None)
-                            (cloud_unassign w ip (e_node e))) as [->| ->].
-  - split; [apply pfx_le_refl|done].
-  - split; [|apply (reserve_ip_pools (w_ipam w))]. apply keys_eq_pfx_le. apply (reserve_ip_same_keys (w_ipam w)).
+  destruct (update_attr s key x a fail) as [s' ra] eqn:E. cbn [fst].
+  apply update_attr_spec in E as [(_ & e & He & Hk & Hal & _ & Hp)|[_ ->]]; [|split; [apply keys_eq_refl|done]].
+  split; [|done]. intros y. rewrite Hal. destruct (decide (y = x)) as [->|Hne].
+  - rewrite lookup_insert, He. cbn. by rewrite Hk.
+  - by rewrite lookup_insert_ne.
 Qed.
 
 Lemma resync_section_wle P w ip o ocl fl : P ≠ [] → wle (pool_key P) w (resync_section w ip o ocl fl).1.
@@ -674,10 +668,21 @@ Proof.
   destruct (pod_running _ _ _ _); [apply wle_refl|].
   match goal with |- wle _ _ (match ?r with _ => _ end).1 => set (s1 := r) end.
   assert (wle (pool_key P) w s1.1) as Hs1.
-  { unfold s1.
-    apply (resync_step1_wle (pool_key P) w ip e ocl fl
-             (λ r w1, match r.2 with AStuck => (w1, SStuck) | _ => (set_ipam w1 r.1, SOk) end)).
-    intros r w1. destruct r.2; cbn [fst set_ipam w_ipam]; auto. }
+  { unfold s1. destruct (_ && _)%bool; [|apply wle_refl].
+    destruct (negb _); [apply wle_refl|].
+    match goal with |- context [unassign_loop w ?oun 0 fl] => set (oun0 := oun) end.
+    pose proof (unassign_loop_ipam fl oun0 w 0) as Hip.
+    destruct (unassign_loop w oun0 0 fl) as [w1 [| |]]; cbn [fst] in Hip.
+    - destruct (negb _); [apply wle_refl|].
+      match goal with |- context [reserve_ip (w_ipam w1) _ _ _ ?ocl0 None] => set (ocl1 := ocl0) end.
+      assert (wle (pool_key P) w (set_ipam w1 (reserve_ip (w_ipam w1) (e_key e) (e_key e) free_entry_attr ocl1 None).1)) as Hw2.
+      { unfold wle. cbn [set_ipam w_ipam]. rewrite Hip.
+        split; [|apply (reserve_ip_pools (w_ipam w))]. apply keys_eq_pfx_le. apply (reserve_ip_same_keys (w_ipam w)). }
+      destruct (reserve_ip (w_ipam w1) (e_key e) (e_key e) free_entry_attr ocl1 None) as [s' ra]. cbn [fst snd] in *.
+      destruct ra; cbn [fst]; first [exact Hw2|by apply wle_same_ipam].
+    - destruct (f_cloud fl); [|apply wle_refl].
+      destruct (_ || _)%bool; [by apply wle_same_ipam|apply wle_refl].
+    - by apply wle_same_ipam. }
   destruct s1 as [w1 [| |]]; cbn [fst] in *; try done.
   eapply wle_trans; [exact Hs1|]. apply unbind_any_wle. intros Hdp. by apply pfx_imp_parse.
 Qed.
@@ -691,10 +696,12 @@ Proof.
   destruct (pod_running _ _ _ _); [apply wle_refl|].
   match goal with |- wle _ _ (match ?r with _ => _ end).1 => set (s1 := r) end.
   assert (wle X w s1.1) as Hs1.
-  { unfold s1.
-    apply (resync_step1_wle X w ip e ocl fl
-             (λ r w1, match r.2 with AStuck => (w1, SStuck) | AOk => (set_ipam w1 r.1, SOk) | _ => (set_ipam w1 r.1, SErr) end)).
-    intros r w1. destruct r.2; cbn [fst set_ipam w_ipam]; auto. }
+  { unfold s1. destruct (_ && _)%bool; [|apply wle_refl]. destruct (bool_decide _); [apply wle_refl|].
+    match goal with |- context [update_attr ?s0 ?K0 ip ?a0 ?f0] =>
+      pose proof (update_attr_keys_eq s0 K0 ip a0 f0) as [Hke Hpo]; destruct (update_attr s0 K0 ip a0 f0) as [s' ra] end.
+    cbn [fst snd cloud_unassign w_ipam] in *.
+    destruct ra; cbn [fst]; try (by apply wle_same_ipam).
+    unfold wle. cbn [set_ipam w_ipam]. split; [by apply keys_eq_pfx_le|done]. }
   destruct s1 as [w1 [| |]]; cbn [fst] in *; try done.
   eapply wle_trans; [exact Hs1|]. unfold wle. cbn [set_ipam w_ipam fst]. split; [apply release_pfx_le|apply release_pools].
 Qed.
@@ -720,15 +727,6 @@ Proof.
 Qed.
 
 (** * Bind *)
-Lemma update_attr_keys_eq s key x a fail : keys_eq s (update_attr s key x a fail).1 ∧ i_pools (update_attr s key x a fail).1 = i_pools s.
-Proof.
-  destruct (update_attr s key x a fail) as [s' ra] eqn:E. cbn [fst].
-  apply update_attr_spec in E as [(_ & e & He & Hk & Hal & _ & Hp)|[_ ->]]; [|split; [apply keys_eq_refl|done]].
-  split; [|done]. intros y. rewrite Hal. destruct (decide (y = x)) as [->|Hne].
-  - rewrite lookup_insert, He. cbn. by rewrite Hk.
-  - by rewrite lookup_insert_ne.
-Qed.
-
 Lemma assign_loop_keys_eq key node a reused fl ips : ∀ w idx ridx,
   keys_eq (w_ipam w) (w_ipam (assign_loop w key node a ips reused idx ridx fl).1) ∧
   i_pools (w_ipam (assign_loop w key node a ips reused idx ridx fl).1) = i_pools (w_ipam w).
